@@ -143,6 +143,15 @@ func (s *Server) ServeWithContext(ctx context.Context, r io.Reader, w io.Writer)
 	}
 }
 
+// drainRefusedStreamInput discards the input stream of a stream call that was
+// refused before dispatch. A stream client writes its input stream before
+// reading the response, so leaving it unread would make it the next request.
+func (s *Server) drainRefusedStreamInput(r io.Reader, method string) {
+	if info, ok := s.methods[method]; ok && methodTypeString(info.Type) == DispatchMethodStream {
+		drainInputStream(r)
+	}
+}
+
 // serveOne handles one complete RPC request-response cycle.
 func (s *Server) serveOne(ctx context.Context, r io.Reader, w io.Writer, shmConn *shmConnState) error {
 	req, err := ReadRequest(r)
@@ -187,6 +196,7 @@ func (s *Server) serveOne(ctx context.Context, r io.Reader, w io.Writer, shmConn
 				emptySchema := arrow.NewSchema(nil, nil)
 				s.logIPCWriteErr("error-response", req.Method,
 					writeErrorResponse(w, emptySchema, rpcErr, s.serverID, req.RequestID, s.debugErrors))
+				s.drainRefusedStreamInput(r, req.Method)
 				return nil
 			}
 			req.Batch.Release()
@@ -221,6 +231,7 @@ func (s *Server) serveOne(ctx context.Context, r io.Reader, w io.Writer, shmConn
 		emptySchema := arrow.NewSchema(nil, nil)
 		s.logIPCWriteErr("error-response", req.Method,
 			writeErrorResponse(w, emptySchema, rpcErr, s.serverID, req.RequestID, s.debugErrors))
+		s.drainRefusedStreamInput(r, req.Method)
 		return nil
 	}
 
